@@ -67,11 +67,14 @@ func newVC(eng *Engine, fn string) *VC {
 	vc.decl("(declare-fun eaddr (Int Int) Int)")
 	vc.decl("(declare-fun earr (Int) Int)")
 	vc.decl("(declare-fun eidx (Int) Int)")
+	vc.decl("(declare-fun selem (Slice Int) Int)")
 	vc.decl("(declare-fun strlen (Int) Int)")
 	vc.decl("(declare-fun implements (Int Int) Bool)")
 	vc.axioms = append(vc.axioms,
 		"(assert (forall ((a Int) (i Int)) (! (and (= (earr (eaddr a i)) a) (= (eidx (eaddr a i)) i) (= (tagof (eaddr a i)) 1) (= (base (eaddr a i)) (base a))) :pattern ((eaddr a i)))))",
+		"(assert (forall ((s Slice) (i Int)) (! (= (selem s i) (eaddr (s.arr s) (+ (s.off s) i))) :pattern ((selem s i)))))",
 		"(assert (= (base 0) 0))",
+		"(assert (= (tagof 0) 0))",
 	)
 	return vc
 }
@@ -166,7 +169,7 @@ func isOpaqueStruct(t types.Type) bool {
 }
 
 func typeKey(t types.Type) string {
-	return shortType(types.TypeString(t, nil))
+	return shortType(canonType(t))
 }
 
 func (vc *VC) sortOf(t types.Type) string {
